@@ -354,7 +354,7 @@ def shards(tier, seed):
     items = [('graphs', tier, k, n) for k in range(n)]
     fl = L.STAT_LABELS
     items += [('bodies', f) for f in fl]
-    items += [('paths',), ('errors',)]
+    items += [('paths',), ('errors',), ('resave',)]
     return items
 
 
@@ -380,13 +380,41 @@ def run_shard(item):
     elif item[0] == 'errors':
         for ec in ERRORS:
             run_error(ec, res)
+    elif item[0] == 'resave':
+        resave_history(res)
+        res.sample({'history': 'build; re-save pk.lua and main.lua; build again in the same directory (x3)'})
     return res
+
+
+def resave_history(res):
+    d = fresh_dir()
+    try:
+        for step in range(3):
+            body = b'v%d=%d\nfunction _draw() t=%d end\nw%d=1\n' % (step, step, step, step)
+            main = b'require("pk")\nm%d=1\n' % step
+            open(os.path.join(d, 'pk.lua'), 'wb').write(body)
+            open(os.path.join(d, 'main.lua'), 'wb').write(main)
+            res.evaluations += 1
+            res.nontriv(('resave', step))
+            case = {'kind': 'resave', 'step': step}
+            rcode, err, out = build(d, [])
+            if err is not None or rcode != 0:
+                res.violation('C14|build-fails|resave', 'build %d in the same directory failed: %r' % (step, err or rcode), case)
+                return
+            exp = toks(b'v%d=%d\nw%d=1\n' % (step, step, step))
+            if check_out(out, main, {b'pk': exp}, res, case, 'resave-step%d' % step):
+                res.outcome(('resave', step))
+    finally:
+        shutil.rmtree(d, ignore_errors=True)
+
 
 
 def replay(case):
     res = ShardResult()
     k = case['kind']
-    if k == 'graph':
+    if k == 'resave':
+        resave_history(res)
+    elif k == 'graph':
         run_graph([tuple(e) for e in case['edges']], case['nodes'], res)
     elif k == 'body':
         run_body(case['filler'], case['placement'], case['final_nl'], case['ugl'], res)
